@@ -122,6 +122,30 @@ def run_repr(case):
     f = compare(_calc(what, dt, s, th, o), "transposed_grid")
     if f:
         return Outcome(f, True, labels)
+    # (ii-c) a grid whose coordinates are integer-typed (pixel spacing 1 or 100 in the user's unit: detector_grid(shape, 1)
+    # gives int64 coordinates) against the same positions held as floats; the particle keeps a non-integer centre
+    if case["seed"] % 3 == 0:
+        oi, oj, zi = [int(v) for v in (round(det["origin"][0]), round(det["origin"][1]), round(det["z"]))]
+        det_i = dict(det, spacing=[1.0 / unit, 1.0 / unit], origin=[oi / unit, oj / unit], z=zi / unit)
+        s_i, th_i, _ = gen.build_scene(sc, o, det_i)
+        d_f = gen.build_detector(det_i, unit)
+        xi = np.round(d_f.x.values).astype(np.int64); yi = np.round(d_f.y.values).astype(np.int64); zi_ = np.round(d_f.z.values).astype(np.int64)
+        d_float = d_f.assign_coords(x=xi.astype(float), y=yi.astype(float), z=zi_.astype(float))
+        d_int = d_f.assign_coords(x=xi, y=yi, z=zi_)
+        try:
+            a_ = gen.flatten(_calc(what, d_float, s_i, th_i, o))[1]
+            b_ = gen.flatten(_calc(what, d_int, s_i, th_i, o))[1]
+        except Exception as e:
+            if type(e).__name__ != "MultisphereFailure":
+                raise
+            a_ = b_ = None
+        if a_ is not None:
+            sc_ = max(np.abs(a_).max(), 1.0 if what == "holo" else 1e-300)
+            e_ = np.abs(np.asarray(b_) - np.asarray(a_)).max() / sc_
+            labels.append("integer_typed_grid")
+            if not (e_ <= (0.0 if exact else rtol) * TOLX):
+                return Outcome(failure("representation_mismatch", "integer-typed grid coordinates: values differ from those at the same positions held as floats by %.3g (rel)" % e_,
+                                       representation="integer_typed_grid", theory=tname), True, labels)
     # (iii) crops: raw isel and subimage
     x0 = int(case["crop"][0] * (nx - 1)); x1 = x0 + 1 + int(case["crop"][1] * (nx - 1 - x0))
     y0 = int(case["crop"][2] * (ny - 1)); y1 = y0 + 1 + int(case["crop"][3] * (ny - 1 - y0))
